@@ -200,9 +200,14 @@ func (a *Analysis) analyze(f *Frame, entry State) *exitState {
 				a.EdgeHook(a, f, b, succ, s)
 			}
 			ek := [2]int{b.Index, succ.Index}
-			edgeIn[ek] = Union(edgeIn[ek], s)
+			oldEdge := edgeIn[ek]
+			edgeIn[ek] = Union(oldEdge, s)
+			// the successor is (re)visited when its in-state grows, and also when the state of this EDGE grows while the
+			// in-state does not: a condition materialised as a phi is split per incoming edge, so which edges carry
+			// which states matters even if their union is unchanged
+			edgeGrew := !Equal(edgeIn[ek], oldEdge)
 			n := Union(in[succ.Index], s)
-			if !Equal(n, in[succ.Index]) {
+			if !Equal(n, in[succ.Index]) || edgeGrew {
 				in[succ.Index] = n
 				if !inWork[succ.Index] {
 					work = append(work, succ.Index)
